@@ -119,6 +119,7 @@ MPI_OPERATION(win_read)
  *        {"k":"getacc","id":n,"data":hex,"count":c,"t":..,"disp":..,"mop":op}  (data may be empty with NO_OP)
  *        {"k":"fop","id":n,"data":hex,"t":..,"disp":..,"mop":op}
  *        {"k":"cas","id":n,"data":hex,"cmp":hex,"t":..,"disp":..}
+ *        {"k":"rmw","id":n,"add":hex (one element),"t":..,"disp":..}            Get, Win_flush(t), Put(fetched + add); fetched in r<id>
  *        "req":true on put/get/acc/getacc = the request-based variant (MPI_Rput...) completed by MPI_Wait at once
  * -> "rcs": [return code of every step] */
 MPI_OPERATION(rma)
@@ -209,6 +210,24 @@ MPI_OPERATION(rma)
       unsigned char* pc = new_buf(R, "c" + id(), from_hex(s.at("cmp").get<std::string>()));
       unsigned char* pr = new_buf(R, "r" + id(), std::vector<unsigned char>(tsize, 0xEE));
       rc                = MPI_Compare_and_swap(po, pc, pr, t, target(), disp(), w);
+    } else if (k == "rmw") {
+      /* read-modify-write inside the caller's epoch: Get, Win_flush, Put(fetched + add): only atomic if the epoch is exclusive */
+      auto add = from_hex(s.at("add").get<std::string>());
+      if (static_cast<int>(add.size()) != tsize || tsize > 8)
+        throw BadCase("rmw: bad operand");
+      unsigned char* pr = new_buf(R, "r" + id(), std::vector<unsigned char>(tsize, 0xEE));
+      rc                = MPI_Get(pr, 1, t, target(), disp(), 1, t, w);
+      if (rc == MPI_SUCCESS)
+        rc = MPI_Win_flush(target(), w);
+      unsigned long long x = 0, y = 0;
+      memcpy(&x, pr, tsize);
+      memcpy(&y, add.data(), tsize);
+      x += y;
+      std::vector<unsigned char> nv(tsize);
+      memcpy(nv.data(), &x, tsize);
+      unsigned char* po = new_buf(R, "o" + id(), nv);
+      if (rc == MPI_SUCCESS)
+        rc = MPI_Put(po, 1, t, target(), disp(), 1, t, w);
     } else
       throw BadCase("rma: unknown step " + k);
     rcs.push_back(rc);
